@@ -171,6 +171,301 @@ Proof. reflexivity. Qed.
 Example C14_designates_inhabited : designates [97; 98; 97; 110] 0.     (* "aban" -> abandon *)
 Proof. apply bip39_lookup. vm_compute. reflexivity. Qed.
 
+(* ======================================================================================
+   Second layer: the clauses of the property at full strength against independent
+   transcriptions of the standards, the remaining glue of the anchored code, and the
+   outermost entry points.  Proofs in Proofs/{Bip39SpecP,C14Deep,Pbkdf2ObjP,MnemonicApiP,
+   MnemonicHdP}.v.
+   ====================================================================================== *)
+From V Require Import Spec.Bip39S Proofs.Bip39SpecP Proofs.C14Deep Model.Pbkdf2Obj Proofs.Pbkdf2ObjP
+  Model.MnemonicApi Proofs.MnemonicApiP.
+
+(* (7) "encodes the entropy followed by its SHA-256 checksum bits as defined by BIP39":
+   Spec/Bip39S.v is BIP-0039 on bit strings (entropy bits || first ENT/32 bits of the hash,
+   cut into groups of 11 bits); the code computes, with big-integer shifts, exactly these
+   indices and exactly this sentence, for every entropy of 16/20/24/28/32 bytes *)
+Theorem C14_indices_eq_bip39_spec : forall sha256, sha_ok sha256 -> forall e, ent_ok e ->
+  bytes_to_indices sha256 e (8 * zlen e) = Ok (bip39_indices sha256 e).
+Proof. exact bip39_indices_eq_spec. Qed.
+Print Assumptions C14_indices_eq_bip39_spec.
+
+Theorem C14_mnemonic_eq_bip39_sentence : forall sha256, sha_ok sha256 -> forall e, ent_ok e ->
+  bytes_to_mnemonic sha256 bip39_words e (8 * zlen e) = Ok (bip39_sentence sha256 bip39_words e).
+Proof. exact bip39_mnemonic_eq_spec. Qed.
+Print Assumptions C14_mnemonic_eq_bip39_sentence.
+
+(* "a word sequence (full words or unique four-letter prefixes) is accepted exactly when its
+   length is valid and its checksum matches", against the specification: the text is accepted
+   with result s iff s has an admissible size and the words of the text designate, one by one,
+   the words of the BIP-0039 sentence of s (this fixes the number of words and the checksum) *)
+Theorem C14_accept_iff_bip39_spelling : forall sha256, sha_ok sha256 -> forall m s,
+  mnemonic_to_bytes sha256 bip39_words m = Ok s <->
+  ent_ok s /\ Forall2 designates (split_ws m) (bip39_indices sha256 s).
+Proof. exact bip39_accept_spec. Qed.
+Print Assumptions C14_accept_iff_bip39_spelling.
+
+(* decode, then encode: the canonical sentence of the decoded entropy is the accepted text
+   with every word normalised to the full list word *)
+Theorem C14_decode_then_encode : forall sha256, sha_ok sha256 -> forall m s,
+  mnemonic_to_bytes sha256 bip39_words m = Ok s ->
+  exists norm, mapM (wl_normalize bip39_words) (split_ws m) = Ok norm /\
+               bytes_to_mnemonic sha256 bip39_words s (8 * zlen s) = Ok (join_sp norm).
+Proof. exact bip39_decode_encode. Qed.
+Print Assumptions C14_decode_then_encode.
+
+(* given one accepted text for s, another text decodes to s exactly when it spells the same words *)
+Theorem C14_same_entropy_same_words : forall sha256, sha_ok sha256 -> forall m1 m2 s,
+  mnemonic_to_bytes sha256 bip39_words m1 = Ok s ->
+  (mnemonic_to_bytes sha256 bip39_words m2 = Ok s <->
+   mapM (wl_normalize bip39_words) (split_ws m2) = mapM (wl_normalize bip39_words) (split_ws m1) /\
+   mapM (wl_index bip39_words) (split_ws m2) = mapM (wl_index bip39_words) (split_ws m1)).
+Proof. exact bip39_same_entropy_same_words. Qed.
+Print Assumptions C14_same_entropy_same_words.
+
+(* (8) the seed, the master key and the chain code depend on the designated words only *)
+Theorem C14_seed_spelling_invariant : forall sha256 hmac_sha512 m1 m2 idx pw,
+  Forall2 designates (split_ws m1) idx -> Forall2 designates (split_ws m2) idx ->
+  from_mnemonic sha256 hmac_sha512 bip39_words m1 pw =
+  from_mnemonic sha256 hmac_sha512 bip39_words m2 pw.
+Proof. exact seed_spelling_invariant. Qed.
+Print Assumptions C14_seed_spelling_invariant.
+
+(* end to end from the entropy: any accepted spelling of the BIP-0039 sentence of e decodes to e
+   and its seed is PBKDF2-HMAC-SHA512 (RFC 8018) of THE SENTENCE, salt "mnemonic" || passphrase,
+   2048 rounds, 64 bytes; key and chain code by from_seed *)
+Theorem C14_seed_from_entropy : forall sha256 (hmac_sha512 : bytes -> bytes -> bytes),
+  sha_ok sha256 -> (forall k m, zlen (hmac_sha512 k m) = 64) ->
+  forall e m pw, ent_ok e ->
+  Forall2 designates (split_ws m) (bip39_indices sha256 e) ->
+  mnemonic_to_bytes sha256 bip39_words m = Ok e /\
+  exists seed,
+    pbkdf2 hmac_sha512 64 (bip39_sentence sha256 bip39_words e) (s_mnemonic ++ pw) 2048 64 = Ok seed /\
+    zlen seed = 64 /\
+    from_mnemonic sha256 hmac_sha512 bip39_words m pw =
+      ('(k, c) <- from_seed hmac_sha512 seed ;; Ok (seed, k, c)).
+Proof. exact seed_from_entropy. Qed.
+Print Assumptions C14_seed_from_entropy.
+
+Theorem C14_seed_of_generated_mnemonic : forall sha256 (hmac_sha512 : bytes -> bytes -> bytes),
+  sha_ok sha256 -> (forall k m, zlen (hmac_sha512 k m) = 64) ->
+  forall e pw, ent_ok e ->
+  exists m seed,
+    bytes_to_mnemonic sha256 bip39_words e (8 * zlen e) = Ok m /\
+    pbkdf2 hmac_sha512 64 m (s_mnemonic ++ pw) 2048 64 = Ok seed /\
+    from_mnemonic sha256 hmac_sha512 bip39_words m pw =
+      ('(k, c) <- from_seed hmac_sha512 seed ;; Ok (seed, k, c)).
+Proof. exact seed_of_generated_mnemonic. Qed.
+Print Assumptions C14_seed_of_generated_mnemonic.
+
+(* the str -> UTF-8 step of PBKDF2._setup (from_mnemonic passes the normalised mnemonic as a
+   str) changes nothing: the seed computed with the encoding step is the seed of the model used
+   above, for every text; outside ASCII the step would matter *)
+Theorem C14_seed_utf8_step : forall sha256 hmac_sha512 m pw,
+  mnemonic_seed_utf8 sha256 hmac_sha512 bip39_words m pw =
+  mnemonic_seed sha256 hmac_sha512 bip39_words m pw.
+Proof. intros. exact (mnemonic_seed_utf8_eq sha256 hmac_sha512 bip39_words 2048 m pw bip39_good). Qed.
+Print Assumptions C14_seed_utf8_step.
+
+Theorem C14_utf8_ascii_identity : forall s, Forall (fun c => 0 <= c < 128) s -> utf8_encode s = Ok s.
+Proof. exact utf8_ascii. Qed.
+Print Assumptions C14_utf8_ascii_identity.
+
+Theorem C14_utf8_non_ascii_differs : forall c s, 128 <= c -> utf8_encode (c :: s) <> Ok (c :: s).
+Proof. exact utf8_non_ascii. Qed.
+Print Assumptions C14_utf8_non_ascii_differs.
+
+(* (9) PBKDF2(...).read(dkLen) = RFC 8018 on the whole domain dkLen >= 0, any iteration count:
+   both error branches included ("iterations must be at least 1", "derived key too long") *)
+Theorem C14_pbkdf2_whole_domain :
+  forall (prf : bytes -> bytes -> bytes) (hLen : Z),
+  (forall k m, zlen (prf k m) = hLen) -> 0 < hLen ->
+  forall P S c dkLen, 0 <= dkLen ->
+  pbkdf2_read prf P S c dkLen = pbkdf2 prf hLen P S c dkLen.
+Proof. exact pbkdf2_read_eq_rfc8018_total. Qed.
+Print Assumptions C14_pbkdf2_whole_domain.
+
+(* a negative size is not refused (RFC 8018 / hashlib: error): nothing is derived, b"" is returned *)
+Theorem C14_pbkdf2_negative_size : forall (prf : bytes -> bytes -> bytes) P S c n,
+  1 <= c -> n < 0 -> pbkdf2_read prf P S c n = Ok [].
+Proof. exact pbkdf2_read_negative. Qed.
+Print Assumptions C14_pbkdf2_negative_size.
+
+(* one object: any reads / hexreads, then close(), then anything: the reads are the consecutive
+   pieces of the RFC key (hexread: their lower-case hex spelling), after close() every read
+   raises and close() stays harmless *)
+Theorem C14_pbkdf2_object_session :
+  forall (prf : bytes -> bytes -> bytes) (hLen : Z),
+  (forall k m, zlen (prf k m) = hLen) -> 0 < hLen ->
+  forall P S c (rs : list (bool * Z)) ops',
+  1 <= c -> Forall (fun n => 0 <= n) (map snd rs) ->
+  zsum_l (map snd rs) <= 4294967295 * hLen ->
+  exists outs,
+    po_session prf P S c (map rd_op rs ++ PClose :: ops') =
+      Ok (map (fun pb => rd_out (fst pb) (snd pb)) (combine rs outs)
+          ++ Ok [] :: map closed_result ops') /\
+    Forall2 (fun (o : bytes) n => zlen o = n) outs (map snd rs) /\
+    pbkdf2 prf hLen P S c (zsum_l (map snd rs)) = Ok (concat outs).
+Proof. exact pbkdf2_object_session. Qed.
+Print Assumptions C14_pbkdf2_object_session.
+
+(* (10) WordList[int] (Python negative indices) and `word in BIP39` *)
+Theorem C14_wordlist_getitem_int : forall ws i w,
+  wl_getitem_int ws i = Ok w <->
+  - zlen ws <= i < zlen ws /\ nth_error ws (Z.to_nat (i mod zlen ws)) = Some w.
+Proof. exact wl_getitem_int_spec. Qed.
+Print Assumptions C14_wordlist_getitem_int.
+
+Theorem C14_wordlist_contains : forall w,
+  wl_contains bip39_words w = true <->
+  exists i, 0 <= i < 2048 /\ nth_error bip39_words (Z.to_nat i) = Some w.
+Proof. exact bip39_contains. Qed.
+Print Assumptions C14_wordlist_contains.
+
+(* bytes_to_mnemonic does not compare len(b) with num_bits (outside the property's quantifier:
+   there num_bits = 8 * len): it returns a sentence for EVERY byte string, and when the lengths
+   disagree that sentence never decodes back to b *)
+Theorem C14_bytes_to_mnemonic_unchecked_length : forall sha256, sha_ok sha256 ->
+  forall b nb, valid_num_bits nb = true ->
+  exists m, bytes_to_mnemonic sha256 bip39_words b nb = Ok m /\
+    (8 * zlen b <> nb -> mnemonic_to_bytes sha256 bip39_words m <> Ok b).
+Proof. exact bytes_to_mnemonic_unchecked_length. Qed.
+Print Assumptions C14_bytes_to_mnemonic_unchecked_length.
+
+(* (11) the outermost entry points: HDPrivateKey.from_mnemonic(mnemonic, password, path, network,
+   priv_version, pub_version), .xprv(), HDPrivateKey.generate — Model/MnemonicHd.v composes the
+   seed with HDPrivateKey.from_seed / traverse / xprv of the BIP32 model of C08 (Model/Hd.v,
+   Model/HdStr.v).  BIP-0032 master key generation is Spec/Bip32.v (master); the curve is any
+   curve with the scalar laws of Proofs/GroupHyp.v whose order fits 32 bytes. *)
+From V Require Model.Pecc Model.Base58 Model.Hd Model.HdStr Model.MnemonicHd Spec.Bip32 Proofs.GroupHyp
+  Proofs.MnemonicHdP Proofs.ToyCurve Generated.HdVersions.
+
+Theorem C14_from_mnemonic_master_xprv :
+  forall C, GroupHyp.scalar_laws C -> Pecc.cn C < pow256 32 ->
+  forall sha256 (hmac512 : bytes -> bytes -> bytes) (hash160 hash256 : bytes -> bytes),
+  sha_ok sha256 -> (forall k m, zlen (hmac512 k m) = 64) -> (forall k m, bytes_ok (hmac512 k m)) ->
+  forall e m pw net, ent_ok e ->
+  Forall2 designates (split_ws m) (bip39_indices sha256 e) ->
+  0 <= net < 4 ->
+  exists seed v pv,
+    pbkdf2 hmac512 64 (bip39_sentence sha256 bip39_words e) (s_mnemonic ++ pw) 2048 64 = Ok seed /\
+    Hd.tbl_get HdVersions.tbl_xprv net = Ok v /\ Hd.tbl_get HdVersions.tbl_xpub net = Ok pv /\
+    match Bip32.master C hmac512 seed with
+    | Some (kM, cM) =>
+        exists k,
+          MnemonicHd.hd_from_mnemonic C sha256 hmac512 hash160 bip39_words m pw [109] net None None = Ok k /\
+          Hd.sk k = kM /\ Hd.sk_cc k = cM /\ Hd.sk_depth k = 0 /\ Hd.sk_num k = 0 /\
+          Hd.sk_pfp k = [0; 0; 0; 0] /\ Hd.sk_net k = net /\ Hd.sk_ver k = v /\ Hd.sk_pubver k = pv /\
+          Pecc.pubkey C kM = Ok (Hd.sk_pt k) /\
+          HdStr.xprv_str hash256 k None =
+            Base58.encode_base58_checksum hash256
+              (v ++ [0] ++ [0; 0; 0; 0] ++ [0; 0; 0; 0] ++ cM ++ 0 :: to_be 32 kM)
+    | None =>
+        MnemonicHd.hd_from_mnemonic C sha256 hmac512 hash160 bip39_words m pw [109] net None None = Err
+    end.
+Proof.
+  intros C SL Hn sha256 hmac512 hash160 hash256 Hs Hl Hb.
+  exact (MnemonicHdP.hd_from_mnemonic_master C SL Hn sha256 hmac512 hash160 hash256 Hs Hl Hb).
+Qed.
+Print Assumptions C14_from_mnemonic_master_xprv.
+
+(* on secp256k1 itself, without any hypothesis about the curve: the seed -> (master key, chain
+   code) step of from_mnemonic (from_seed in C14_seed_formula / C14_seed_from_entropy) is BIP-0032
+   master key generation, invalid keys (0, >= n) refused *)
+Theorem C14_from_seed_eq_bip32_master : forall (hmac512 : bytes -> bytes -> bytes),
+  (forall k m, bytes_ok (hmac512 k m)) ->
+  forall seed,
+  from_seed hmac512 seed =
+  match Bip32.master Pecc.secp256k1 hmac512 seed with Some (k, c) => Ok (k, c) | None => Err end.
+Proof. exact MnemonicHdP.from_seed_eq_bip32_master. Qed.
+Print Assumptions C14_from_seed_eq_bip32_master.
+
+(* any other path: a traversal (BIP32 derivation, C08) from that root *)
+Theorem C14_from_mnemonic_path :
+  forall C sha256 hmac512 hash160 words m pw path net ver pv,
+  MnemonicHd.hd_from_mnemonic C sha256 hmac512 hash160 words m pw path net ver pv =
+  (root <- MnemonicHd.hd_from_mnemonic C sha256 hmac512 hash160 words m pw [109] net ver pv ;;
+   Hd.traverse_priv C hmac512 hash160 root path).
+Proof. exact MnemonicHdP.hd_from_mnemonic_path. Qed.
+Print Assumptions C14_from_mnemonic_path.
+
+Theorem C14_from_mnemonic_requires_valid :
+  forall C sha256 hmac512 hash160 words m pw path net ver pv,
+  mnemonic_to_bytes sha256 words m = Err ->
+  MnemonicHd.hd_from_mnemonic C sha256 hmac512 hash160 words m pw path net ver pv = Err.
+Proof. exact MnemonicHdP.hd_from_mnemonic_requires_valid. Qed.
+Print Assumptions C14_from_mnemonic_requires_valid.
+
+(* HDPrivateKey.generate: the mnemonic self-check never fails; the returned mnemonic spells the
+   sentence of randbits(256) ^ (masked extra_entropy ^ clock) and the key is from_mnemonic of it
+   (to which C14_from_mnemonic_master_xprv applies) *)
+Theorem C14_generate_ok :
+  forall C sha256 (hmac512 : bytes -> bytes -> bytes) (hash160 : bytes -> bytes), sha_ok sha256 ->
+  forall pw extra rnd t net ver pv,
+  0 <= extra -> 0 <= rnd < 2 ^ 256 -> 0 <= t < 2 ^ 256 ->
+  let e := to_be 32 (Z.lxor rnd (Z.lxor (if len_bin extra >? 256 + 2
+                                         then Z.land extra (Z.shiftl 1 256 - 1) else extra) t)) in
+  exists m,
+    secure_mnemonic sha256 bip39_words 256 extra rnd t = Ok m /\
+    ent_ok e /\
+    Forall2 designates (split_ws m) (bip39_indices sha256 e) /\
+    MnemonicHd.hd_generate C sha256 hmac512 hash160 bip39_words pw extra rnd t net ver pv =
+      (k <- MnemonicHd.hd_from_mnemonic C sha256 hmac512 hash160 bip39_words m pw [109] net ver pv ;;
+       Ok (m, k)).
+Proof.
+  intros C sha256 hmac512 hash160 Hs. exact (MnemonicHdP.hd_generate_ok C sha256 hmac512 hash160 Hs).
+Qed.
+Print Assumptions C14_generate_ok.
+
+(* ---- non-vacuity of the new hypotheses, on concrete data ---- *)
+
+(* a toy hash (first byte 0xAB) and the entropy 01 02 ... 10: the specification's sentence is
+   accepted and decodes to the entropy, also when spelled by four-letter prefixes *)
+Definition ex_sha (_ : bytes) : bytes := [171; 0].
+Definition ex_ent : bytes := [1; 2; 3; 4; 5; 6; 7; 8; 9; 10; 11; 12; 13; 14; 15; 16].
+Example C14_ex_sha_ok : sha_ok ex_sha.
+Proof. intros x. exists 171, [0]. split; [reflexivity | lia]. Qed.
+Example C14_ex_ent_ok : ent_ok ex_ent.
+Proof. split; [repeat constructor; unfold byte_ok; lia | cbn; tauto]. Qed.
+Example C14_ex_indices : bip39_indices ex_sha ex_ent = [8; 128; 1544; 80; 771; 1056; 289; 523; 96; 835; 1054; 266].
+Proof. vm_compute. reflexivity. Qed.
+Example C14_ex_sentence_accepted :
+  mnemonic_to_bytes ex_sha bip39_words (bip39_sentence ex_sha bip39_words ex_ent) = Ok ex_ent.
+Proof. vm_compute. reflexivity. Qed.
+Example C14_ex_prefix_spelling_designates :
+  Forall2 designates
+    (split_ws (join_sp (map (fun i => firstn 4 (nth (Z.to_nat i) bip39_words [])) (bip39_indices ex_sha ex_ent))))
+    (bip39_indices ex_sha ex_ent).
+Proof.
+  apply (proj1 (C14_accept_iff_bip39_spelling ex_sha C14_ex_sha_ok _ ex_ent)). vm_compute. reflexivity.
+Qed.
+
+(* a PBKDF2 session on a toy PRF with 3-byte output *)
+Definition ex_prf (k m : bytes) : bytes := [Z.of_nat (length k); Z.of_nat (length m) mod 256; 7].
+Example C14_ex_prf_len : forall k m, zlen (ex_prf k m) = 3.
+Proof. reflexivity. Qed.
+Example C14_ex_session :
+  po_session ex_prf [1] [2; 3] 2 (map rd_op [(false, 4); (true, 3)] ++ PClose :: [PRead 1; PClose; PHexRead 0]) =
+  Ok [Ok [0; 5; 0; 0]; Ok [48; 53; 48; 48; 48; 48]; Ok []; Err; Ok []; Err].
+Proof. vm_compute. reflexivity. Qed.
+
+(* from_mnemonic on the toy curve of Proofs/ToyCurve.v (order 31) with a toy HMAC whose left half
+   is the number 3: the scalar laws hold there, the master key is 3 *)
+Definition ex_hmac (_ _ : bytes) : bytes := repeatz 0 31 ++ [3] ++ repeatz 9 32.
+Example C14_ex_master_hyps :
+  GroupHyp.scalar_laws ToyCurve.toy /\ Pecc.cn ToyCurve.toy < pow256 32 /\
+  (forall k m, zlen (ex_hmac k m) = 64) /\ (forall k m, bytes_ok (ex_hmac k m)).
+Proof.
+  split; [exact ToyCurve.toy_scalar_laws|]. split; [vm_compute; reflexivity|].
+  split; [reflexivity|]. intros k m. apply bytes_okb_ok. reflexivity.
+Qed.
+Example C14_ex_from_mnemonic_toy :
+  match MnemonicHd.hd_from_mnemonic ToyCurve.toy ex_sha ex_hmac (fun _ => repeatz 0 20) bip39_words
+          (bip39_sentence ex_sha bip39_words ex_ent) [80; 87] [109] 0 None None with
+  | Ok k => (Hd.sk k =? 3) && beq (Hd.sk_cc k) (repeatz 9 32) && (Hd.sk_depth k =? 0)
+  | Err => false
+  end = true.
+Proof. vm_compute. reflexivity. Qed.
+
 (* The constants written in the model are the constants of the SOURCE: coq/Generated/SrcConsts.v is regenerated
    from /repo/buidl/*.py by harness/gen_coq_consts.py on every run; the statements are spelled out in
    Proofs/ConstsTie.v (pbkdf2_is_source_stmt). *)
